@@ -218,6 +218,9 @@ func c13Histories(w *W) {
 		rec = func() {
 			if len(cur) > 0 && w.Mine() && !w.TimeUp() {
 				h := c13Hist{Args: args, Steps: append([]c13Step{}, cur...)}
+				if b, err := json.Marshal(h); err == nil {
+					w.Announce("history " + string(b))
+				}
 				w.Count("evaluations", int64(len(cur)))
 				w.Count("histories", 1)
 				w.Count("states", 1)
